@@ -22,4 +22,10 @@ Definition plain_update_scalar (P : pparams (T:=T)) (pfit : list T) (psucc sigma
             lex_le Op pfit (snd best), oltb Op psucc' (pp_pthresh P))
   end.
 
+(* the scalar slice of StrategyActiveOnePlusLambda._rank1update: (psucc', sigma') *)
+Definition active_rank1_scalar (P : aparams (T:=T)) (psucc sigma p_succ : T) : T * T :=
+  let psucc' := psucc_step Op (ap_cp P) psucc p_succ in
+  (psucc', omul Op sigma (oexp Op (omul Op (odiv Op (c1 Op) (ap_d P))
+                                        (odiv Op (osub Op psucc' (ap_ptarg P)) (osub Op (c1 Op) (ap_ptarg P)))))).
+
 End GenRt.
